@@ -142,7 +142,7 @@ func waitParked(fn, state string, timeout time.Duration) bool {
 		if time.Now().After(deadline) {
 			return false
 		}
-		time.Sleep(200 * time.Microsecond)
+		time.Sleep(2 * time.Millisecond)
 	}
 }
 
@@ -175,5 +175,13 @@ func classifyStacks(dump, fn string) (bool, string) {
 // blockedInFifoOpen: a goroutine sitting in open(2) on a FIFO. Only a process
 // opening the other end can complete it, and that is the passive harness.
 func blockedInFifoOpen(g gor) bool {
-	return g.State == "syscall" && (g.has("syscall.openat") || g.has("syscall.Open")) && g.has("os.OpenFile")
+	if g.State != "syscall" {
+		return false
+	}
+	if (g.has("syscall.openat") || g.has("syscall.Open")) && g.has("os.OpenFile") {
+		return true
+	}
+	// a blocking read(2) on a pipe whose descriptor was switched to blocking
+	// mode: only a writer (the passive harness) or end-of-stream completes it
+	return (g.has("syscall.read") || g.has("syscall.Read")) && g.has("os.(*File).Read") && g.has("namedpipe.(*NamedPipeIngester).Ingest")
 }
